@@ -364,6 +364,7 @@ type walker struct {
 	recv    string
 	events  []event
 	tainted map[*ast.Object]bool
+	params  map[string]string // parameter name -> package-local type name
 	top     int
 	depth   int
 	loop    bool
@@ -641,6 +642,9 @@ func (w *walker) call(c *ast.CallExpr) {
 		case ok && w.isTainted(root):
 			w.emit(event{what: "call", fid: "alias", kind: "alias", name: names[len(names)-1], pos: c.Pos()})
 			w.indexes(f)
+		case ok && len(names) == 1 && root.Obj != nil && w.params[root.Name] != "":
+			// a method called on a parameter of a package-local type (possibly another guarded instance)
+			w.emit(event{what: "argcall", kind: root.Name, name: names[0], pos: c.Pos()})
 		case ok && root.Obj == nil && len(names) == 1 && w.p.imports[root.Name]:
 			w.funcCall(root.Name, names[0], c, false)
 		default:
@@ -852,9 +856,18 @@ type summary struct {
 
 func (p *pkgInfo) summarize(T *structT, d *ast.FuncDecl) *summary {
 	s := &summary{p: p, T: T, decl: d, name: d.Name.Name}
-	w := &walker{p: p, T: T, tainted: map[*ast.Object]bool{}}
+	w := &walker{p: p, T: T, tainted: map[*ast.Object]bool{}, params: map[string]string{}}
 	if d.Recv != nil && len(d.Recv.List) > 0 && len(d.Recv.List[0].Names) > 0 {
 		w.recv = d.Recv.List[0].Names[0].Name
+	}
+	if d.Type.Params != nil { // parameters that may be another instance of a guarded type of this package
+		for _, f := range d.Type.Params.List {
+			if id, ok := baseType(f.Type).(*ast.Ident); ok && p.types[id.Name] {
+				for _, n := range f.Names {
+					w.params[n.Name] = id.Name
+				}
+			}
+		}
 	}
 	if d.Body != nil {
 		for i, st := range d.Body.List {
@@ -1164,6 +1177,24 @@ func (a *analysis) finalize(s *summary) {
 			if outsideLocked {
 				irregular("calls " + e.kind + "." + e.name + " on guarded state outside the critical section")
 			}
+		case "argcall":
+			// the argument may be another instance of a guarded type (or the receiver itself): calling one of ITS locking
+			// methods while holding our own lock is a nested acquisition (lock-order cycle between two instances;
+			// self-deadlock of a re-entrant RLock once a writer is queued)
+			if !in {
+				continue
+			}
+			for _, k := range sortedKeys(a.sums) {
+				ts := a.sums[k]
+				if ts.name != e.name || ts == s || ts.busy || !a.p.hasLock(ts.T, map[*structT]bool{}) {
+					continue
+				}
+				a.finalize(ts)
+				if ts.Acquires {
+					irregular("calls " + e.name + "() of its argument " + e.kind + " (which may be another " + ts.T.name + ", or the receiver itself, and takes that instance's lock) while holding its own lock: nested acquisition")
+					break
+				}
+			}
 		case "self":
 			var ts *summary
 			if e.declT != nil {
@@ -1226,6 +1257,15 @@ func (a *analysis) finalize(s *summary) {
 	if exposes[s.name] {
 		s.guard = "Exposes"
 	}
+}
+
+func sortedKeys(m map[string]*summary) []string {
+	l := make([]string, 0, len(m))
+	for k := range m {
+		l = append(l, k)
+	}
+	sort.Strings(l)
+	return l
 }
 
 func isExported(n string) bool { return n != "" && n[0] >= 'A' && n[0] <= 'Z' }
